@@ -125,4 +125,20 @@ func (c *cluster) GetRawPrefix(prefix string) (kvs map[string]*mvccpb.KeyValue, 
   ghost at call Get: gReadErr := err
   ghost at call Get: gReadResp := ref(resp)
   invariant[1] kvs != nil && fresh(kvs) && (forall k string :: (k in kvs) ==> (exists j int :: 0 <= j && j < idx$1 && kvs[k] == range$1[j]))
+
+// ---- C18: writes to the cluster store, as the admin API sees them ----
+ghost var gPuts int          // number of Put calls
+ghost var gPutKey string     // key and value of the last Put
+ghost var gPutVal string
+ghost var gPutFailed bool
+iface (c Cluster) Put(key string, value string) (err error)
+  modifies gPuts, gPutKey, gPutVal, gPutFailed
+  ensures gPuts == old(gPuts) + 1 && gPutKey == key && gPutVal == value && gPutFailed == (err != nil)
+iface (c Cluster) Layout() (l *Layout)
+  pure
+  ensures l != nil
+pred cfgVersionKey() := configVersion
+func (l *Layout) ConfigVersion() (k string)
+  pure
+  ensures k == configVersion
 @*/
